@@ -21,6 +21,7 @@ import (
 	"sort"
 	"strings"
 	"sync"
+	"sync/atomic"
 	"time"
 
 	"verifh/bridge"
@@ -444,6 +445,10 @@ func serverSide(run *ev.Run, srv *rig.Server, caps []*capture, rng *rand.Rand, m
 				default:
 					if j.mu.malformed != "" {
 						run.Count("http.server.malformed_rejected", 1)
+						if n := atomic.AddInt64(&sampleTick, 1); n%397 == 1 {
+							desc["malformed_because"] = j.mu.malformed
+							run.Sample(desc)
+						}
 					}
 					run.Distinct("http-server|" + j.c.kind + "|" + strings.SplitN(j.mu.class, ":", 2)[0] + "|" + statusClass(resp.status))
 				}
